@@ -113,18 +113,19 @@ const bindHex = "0200007F"
 const listenHex = "0300007F"
 
 type c09Env struct {
-	c       *Ctx
-	T       time.Duration
-	slack   time.Duration
-	fm      *farm.Farm
-	bcast   *farm.Endpoint
-	udp     *farm.Endpoint
-	tcp     *farm.Endpoint
-	closed  int      // a port nobody listens on
-	plan    sync.Map // serial -> behaviour name
-	floodS  time.Duration
-	timing  sync.Map                                         // serial -> *c09Timing (measured by the farm)
-	cfgHook func(b behaviour, serial uint32, cfg *ClientCfg) // netns mode: network specific configuration
+	c              *Ctx
+	T              time.Duration
+	slack          time.Duration
+	fm             *farm.Farm
+	bcast          *farm.Endpoint
+	udp            *farm.Endpoint
+	tcp            *farm.Endpoint
+	closed         int      // a port nobody listens on
+	plan           sync.Map // serial -> behaviour name
+	floodS         time.Duration
+	timing         sync.Map                                         // serial -> *c09Timing (measured by the farm)
+	cfgHook        func(b behaviour, serial uint32, cfg *ClientCfg) // netns mode: network specific configuration
+	discoveryFlood atomic.Bool                                      // discovery requests are answered with a flood that outlasts the timeout
 }
 
 type c09Timing struct {
@@ -187,6 +188,21 @@ func (e *c09Env) script(ep *farm.Endpoint, src net.Addr, req []byte, seq uint64)
 		return nil
 	}
 	serial := uint32(req[4]) | uint32(req[5])<<8 | uint32(req[6])<<16 | uint32(req[7])<<24
+	if serial == 0 && req[1] == 0x94 && e.discoveryFlood.Load() {
+		// discovery under a flood: replies and junk keep arriving until well after the timeout
+		out := []farm.Action{}
+		for i := 0; i < int(e.floodS/time.Millisecond); i++ {
+			var data []byte
+			if i%3 == 0 {
+				data = []byte{0x17, 0x94, 1, 2, 3}
+			} else {
+				data = rm.Encode(rm.FindOp("GetDevice").ReplyLayout(), 0x17, rm.Vals{"SerialNumber": rm.Val{K: rm.Serial, U: uint64(8000 + i)},
+					"IpAddress": rm.IPVal(10, 0, 0, 1), "SubnetMask": rm.IPVal(255, 255, 255, 0), "Gateway": rm.IPVal(10, 0, 0, 254), "MacAddress": rm.Val{K: rm.MAC, B: []byte{1, 2, 3, 4, 5, 6}}, "Version": rm.UVal(rm.Version, 0x0892), "Date": rm.DateVal(2020, 1, 1)})
+			}
+			out = append(out, farm.Action{Delay: time.Millisecond, Data: data})
+		}
+		return out
+	}
 	if serial == 0 && req[1] == 0x94 { // discovery: two prompt replies
 		out := []farm.Action{}
 		for i := 0; i < 2; i++ {
@@ -486,6 +502,37 @@ func c09(c *Ctx) {
 		time.Sleep(e.floodS - T + 100*time.Millisecond) // let the farm finish its floods
 	}
 
+	// ---- phase 1c: discovery while replies keep arriving past the timeout: it returns at the timeout and leaves nothing behind
+	{
+		e.discoveryFlood.Store(true)
+		n := c.N(4, 12)
+		var wg sync.WaitGroup
+		results := make([]c09Result, n)
+		for i := 0; i < n; i++ {
+			wg.Add(1)
+			go func(i int, s uint32) {
+				defer wg.Done()
+				results[i] = e.run(behaviour{"discovery", "broadcast", "success", 0.93, true}, s, bindIP+":0")
+			}(i, next())
+		}
+		wg.Wait()
+		e.discoveryFlood.Store(false)
+		for i := range results {
+			caseNo++
+			results[i].b.name = "discovery-under-flood"
+			e.judge(results[i], caseNo, "discovery-flood", 0)
+		}
+		s, g, sd, gd := settle(time.Second, 0, 0, bindHex, listenHex)
+		if s > 0 {
+			c.Res.Violate("C09:socket-leak:broadcast:discovery-under-flood", fmt.Sprintf("%d library socket(s) still open 1 s after %d discoveries under a reply flood returned: %v", s, n, sd), map[string]any{"sockets": sd}, caseNo)
+		}
+		if g > 0 {
+			c.Res.Violate("C09:goroutine-leak:broadcast:discovery-under-flood", fmt.Sprintf("%d library goroutine(s) still running 1 s after %d discoveries under a reply flood returned", g, n), map[string]any{"goroutine": truncateStr(gd, 1500)}, caseNo)
+		}
+		c.Res.Count("discoveries-under-flood", int64(n))
+		time.Sleep(e.floodS - T + 100*time.Millisecond)
+	}
+
 	// ---- phase 2: calls queued on one fixed bind port are served in turn
 	{
 		rounds := c.N(3, 10)
@@ -503,7 +550,15 @@ func c09(c *Ctx) {
 			}
 			kinds = append(kinds, []behaviour{{"reply-0.7T", "udp", "success", 0, false}, {"reply-0.7T", "broadcast", "success", 0, false}, {"prompt", "udp", "success", 0, false}}[r.Pick(3)])
 			results := make([]c09Result, k)
+			bindFailures := 0
 			for attempt := 0; attempt < 2; attempt++ {
+				if attempt == 1 {
+					// second attempt on a fresh port: a port that some other process grabbed in the meantime does not repeat
+					if p2 := freePort(bindIP); p2 != 0 {
+						port = p2
+						bind = fmt.Sprintf("%s:%d", bindIP, port)
+					}
+				}
 				var wg sync.WaitGroup
 				for i := 0; i < k; i++ {
 					wg.Add(1)
@@ -511,21 +566,46 @@ func c09(c *Ctx) {
 					go func(i int, s uint32) {
 						defer wg.Done()
 						time.Sleep(time.Duration(i) * 8 * time.Millisecond)
-						results[i] = e.run(kinds[i], s, bind)
+						b := bind
+						if round%2 == 1 && i%2 == 1 && kinds[i].path != "tcp" {
+							// the same port through the wildcard address: still one port, still served in turn
+							b = fmt.Sprintf("0.0.0.0:%d", port)
+						}
+						results[i] = e.run(kinds[i], s, b)
 						results[i].fixed = true
 					}(i, s)
 				}
 				wg.Wait()
 				failed := false
+				collided := false
 				for i := range results {
 					if kinds[i].expect == "success" && results[i].err != "" && !results[i].hung {
 						failed = true
 					}
+					if strings.Contains(results[i].err, "address already in use") {
+						failed, collided = true, true
+					}
+				}
+				if collided {
+					bindFailures++
 				}
 				if !failed {
 					break
 				}
 				c.Res.Count("port-queue:round-repeated-after-failure", 1) // confirm a timing verdict by a second attempt
+			}
+			if bindFailures == 2 {
+				// calls of this process that share a fixed bind port could not bind it, twice, on two different ports nobody else knows of:
+				// they were not served in turn
+				for i := range results {
+					if strings.Contains(results[i].err, "address already in use") {
+						caseNo++
+						c.Res.Eval(1)
+						c.Res.Violate("C09:port-queue:not-served-in-turn", fmt.Sprintf("%s over %s: a call sharing the fixed bind port %d with %d other calls of this process failed with %q instead of waiting its turn (seen on two rounds with different ports)", kinds[i].name, kinds[i].path, port, k-1, results[i].err),
+							map[string]any{"behaviour": kinds[i].name, "path": kinds[i].path, "err": results[i].err, "calls_sharing_the_port": k}, caseNo)
+						break
+					}
+				}
 			}
 			for i := range results {
 				caseNo++
